@@ -3,11 +3,11 @@
    (positive, N, Z) and Flocq floats stay Coq datatypes. *)
 Require Import ExtrOcamlBasic.
 From TauModel Require Import Base Num Oracles Value Syntax Generated Token Pratt Ident Yaml
-     ParseMap Solver Rule Optimiser Known Spec Scope Scope2 Order.
+     ParseMap Solver Rule Optimiser Known Spec Scope Scope2 Scope3 Order.
 
 Extraction "../runner/model.ml"
   tokenise parse into_identifier parse_identifier load_rule load_detection solve_rule3
   solve_cond solve_body pure_doc matches validate obj_find yaml_as_value example_doc
-  sem_rule spec_known spec_known_all known_classes known_d10 known_d24 c01_scope c01_scope_all c01_scope_nested c01_scope_nested_all c01_scope_quant_all c01_scope_quant_all_noq rust_ord optimise optimise_detection shake rewrite coalesce matrix shake_fuel
+  sem_rule spec_known spec_known_all known_classes known_d10 known_d24 c01_scope c01_scope_all c01_scope_nested c01_scope_nested_all c01_scope_quant_all c01_scope_quant_all_noq c01_scope_wide rust_ord optimise optimise_detection shake rewrite coalesce matrix shake_fuel
   show_Z show_N binding_power keywords
   Z.add Z.mul Z.opp Z.of_N Z.to_N N.of_nat N.to_nat Z.ltb Z.eqb N.add N.mul.
